@@ -906,13 +906,22 @@ def local_search_targets():
          for nm in ('make_min_igrid', 'make_max_igrid', 'make_avg_igrid', 'map_to_grid')]
 
 
+def space_targets():
+    f = Fn('space_closest_grid_point', 'src/tuner/space.cpp', 'closest_grid_point_from_surrogate', flt='param_space_t::closest_grid_point_from_surrogate',
+           self_struct='struct nv_pspace', types=[(r'tensor1d_t$|tensor_vector_storage_t, double, 1', 'struct nv_t1d')],
+           calls=[(r'^max\|double \(\)', '(NV_DBL_MAX)'), (r'^fabs\|', 'nv_fabs({0})'),
+                  (r'^operator\(\)\|.*\|.*tensor_vector_storage_t, double, 1', 'nv_grid_value(self, {1})')],
+           members=[(r'^size\|.*tensor', '({self}->n)'), (r'^to_surrogate\|.*param_space_t', 'nv_to_surrogate({self}, {0})')])
+    return [Target('closest_grid_point', [f], 'specs/C13/space.h', cbmc_flags=CADICAL)]
+
+
 def build(tier):
     vcs, fns = result_vcs()
     v2, f2 = tune_vcs()
     vcs += v2 + lemmas()
     fns += f2
     return {
-        'targets': result_targets() + tuner_targets() + optimize_targets() + local_search_targets(), 'vcs': vcs, 'functions': fns,
+        'targets': result_targets() + tuner_targets() + optimize_targets() + local_search_targets() + space_targets(), 'vcs': vcs, 'functions': fns,
         'decided': [
             'evaluate(): for an arbitrary grid point G -- the callback is asked to evaluate G exactly when G is a candidate that is not yet among the steps (never twice, only candidates); '
             'a non-finite value is rejected with an exception, and only then, and is never stored; on return steps = old steps + one step per evaluated point holding the callback value, '
